@@ -210,3 +210,50 @@ func moreSkeletonGenFiles() []genFile {
 		})},
 	}
 }
+
+// coreSkeletonGenFiles: the central functions of the codecs, the walk and the focused transform, whose models
+// (Model/Cbor.lean, Model/JsonTok.lean, Model/Walk.lean, Model/Transform.lean) are transcriptions of them.
+func coreSkeletonGenFiles() []genFile {
+	return []genFile{
+		{"CborDecSkeletons", genSkeletons([]skelSpec{
+			{"codec/dagcbor/unmarshal.go", "DecodeOptions.Decode", "cborDecode_skel_src", "entry: token source, budget, trailing-bytes check (model: `Cbor.decodeTop`)"},
+			{"codec/dagcbor/unmarshal.go", "unmarshal1", "cborUnmarshal1_skel_src", "first token of an item (model: `Cbor.decItem` entry)"},
+			{"codec/dagcbor/unmarshal.go", "unmarshal2", "cborUnmarshal2_skel_src", "the decoder proper: one case per token type, budget and depth accounting, tag 42 (model: `Cbor.decItem`)"},
+		})},
+		{"CborEncSkeletons", genSkeletons([]skelSpec{
+			{"codec/dagcbor/marshal.go", "marshal", "cborMarshal_skel_src", "one case per kind (model: `Cbor.encode`)"},
+			{"codec/dagcbor/marshal.go", "marshalMap", "cborMarshalMap_skel_src", "entries sorted per the configured mode before emission (model: `Cbor.encodeMap`)"},
+			{"codec/dagcbor/marshal.go", "EncodedLength", "cborEncodedLength_skel_src", "length without encoding (model: `Cbor.encodedLength`)"},
+		})},
+		{"JsonDecSkeletons", genSkeletons([]skelSpec{
+			{"codec/dagjson/unmarshal.go", "DecodeOptions.Decode", "jsonDecode_skel_src", "entry: trailing-content scan (model: `JsonTok.decodeTop`)"},
+			{"codec/dagjson/unmarshal.go", "unmarshalState.step", "jsonStep_skel_src", "token window"},
+			{"codec/dagjson/unmarshal.go", "unmarshalState.ensure", "jsonEnsure_skel_src", "token window look-ahead"},
+			{"codec/dagjson/unmarshal.go", "unmarshalState.linkLookahead", "jsonLinkLookahead_skel_src", "the reserved link form (model: `JsonTok.linkForm`)"},
+			{"codec/dagjson/unmarshal.go", "unmarshalState.bytesLookahead", "jsonBytesLookahead_skel_src", "the reserved bytes form (model: `JsonTok.bytesForm`)"},
+			{"codec/dagjson/unmarshal.go", "unmarshalState.unmarshal", "jsonUnmarshal_skel_src", "the decoder proper (model: `JsonTok.decValue`)"},
+		})},
+		{"WalkSkeletons", genSkeletons([]skelSpec{
+			{"traversal/walk.go", "Progress.walkBlock", "walkBlock_skel_src", "preloader-free block walk"},
+			{"traversal/walk.go", "Progress.walkAdv", "walkAdv_skel_src", "budget, reify, visit, iterate interests or all children (model: `Walk.walkAdv` / `walkChildren`)"},
+			{"traversal/walk.go", "Progress.visit", "walkVisit_skel_src", "matched / candidate callbacks after the start path (model: the visit events of `Walk.walkAdv`)"},
+		})},
+		{"WalkCtlSkeletons", genSkeletons([]skelSpec{
+			{"traversal/walk.go", "Progress.checkNodeBudget", "checkNodeBudget_skel_src", "test then decrement (model: `Walk.checkNode`)"},
+			{"traversal/walk.go", "Progress.checkLinkBudget", "checkLinkBudget_skel_src", "test then decrement (model: `Walk.checkLink`)"},
+			{"traversal/walk.go", "Progress.explore", "walkExplore_skel_src", "start-at skipping, seen links, load, SkipMe (model: `Walk.exploreChild`)"},
+			{"traversal/walk.go", "Progress.loadLink", "walkLoadLink_skel_src", "link budget, prototype chooser, load, SkipMe passes through (model: the load part of `Walk.exploreChild`)"},
+		})},
+		{"LoadSkeletons", genSkeletons([]skelSpec{
+			{"linking/functions.go", "LinkSystem.Load", "load_skel_src", "Fill into a fresh builder, then the reifier (model: `Link.load`)"},
+			{"linking/functions.go", "LinkSystem.LoadPlusRaw", "loadPlusRaw_skel_src", "LoadRaw (hash checked) first, decode of the checked bytes second (model: `Link.loadPlusRaw` in Lemmas/LinkMore.lean)"},
+		})},
+		{"FocusSkeletons", genSkeletons([]skelSpec{
+			{"traversal/focus.go", "Progress.get", "focusGet_skel_src", "segment-by-segment lookup, links loaded on the way (model: `Walk.get`)"},
+		})},
+		{"TransformSkeletons", genSkeletons([]skelSpec{
+			{"traversal/focus.go", "Progress.focusedTransform", "focusedTransform_skel_src", "recursive rebuild along the path (model: `Transform.focused`)"},
+		})},
+	}
+}
+
